@@ -122,6 +122,8 @@ def run(chk):
                 light.append(("MultiScalarMult n=%d %s" % (n, st), lambda n=n, st=st: run_one(base, chk, "MultiScalarMult", st, n)))
         chk.bounds.append("thorough: MultiScalarMult additionally for n in {5, 6, 8} terms")
     run_kernels(chk, heavy + items + light)
+    from .common import settle_bounds
+    settle_bounds(chk, prog, [prog.find("Point)." + r) for r in ("ScalarMult", "ScalarBaseMult", "VarTimeDoubleScalarBaseMult", "MultiScalarMult", "VarTimeMultiScalarMult")])
     from sym import validate
     validate.scalar_kernels(base, chk, 100 if chk.tier == "thorough" else 8)
     validate.field_kernels(base, chk, 100 if chk.tier == "thorough" else 8)
